@@ -22,3 +22,27 @@ contract(T + "swap_logger", props=["C14"], types={"logger": "Any"}, returns="Any
          modifies=["global:eliot/_output.py:_DEFAULT_LOGGER"],
          ensures=[("installs-the-logger-and-returns-the-previous-one",
                    "box(lookup_global('eliot/_output.py', '_DEFAULT_LOGGER')) == logger and box(result) == old(box(lookup_global('eliot/_output.py', '_DEFAULT_LOGGER')))", ["C14"])])
+
+# ------------------------------------------------------------------------------------------------ capture_logging (C14)
+contract("iface::TestCase.addCleanup", params=["self", "function"], star="args", returns="none", modifies=["#CALLS"],
+         notes="unittest.TestCase.addCleanup(f, *args): registers f; unittest runs the registered functions after the test whatever its outcome (trusted)",
+         ensures=[("recorded", "CALLS == old(CALLS) + [Ev('addCleanup', self)]")])
+DEFLOG = "box(lookup_global('eliot/_output.py', '_DEFAULT_LOGGER'))"
+contract(T + "capture_logging.decorator.wrapper.cleanup", props=["C14"], free={"previous_logger": "Any"}, returns="none",
+         modifies=["global:eliot/_output.py:_DEFAULT_LOGGER"],
+         ensures=[("the-cleanup-reinstalls-the-previous-default-logger", DEFLOG + " == previous_logger", ["C14"])])
+contract(T + "capture_logging.decorator.wrapper", props=["C14"], types={"self": "role:TestCase", "args": "tuple", "kwargs": "dict"}, returns="Any",
+         free={"function": "role:UserCode"},
+         requires=[("validate_logging-supplied-the-logger", "'logger' in kwargs")],
+         ghosts={"DURING": "Any", "NREG": "int", "REGBEFORE": "bool", "NCALLS": "int"}, ghost_defaults={"NREG": "0", "NCALLS": "0", "REGBEFORE": "False"},
+         aliases={"PREVIOUS": 1},
+         after={"TestCase.addCleanup#*": [("NREG", "NREG + 1")],
+                "UserCode.__call__#*": [("DURING", "old(" + DEFLOG + ")"), ("REGBEFORE", "NREG == 1"), ("NCALLS", "NCALLS + 1")]},
+         after_raise={"UserCode.__call__#*": [("DURING", "old(" + DEFLOG + ")"), ("REGBEFORE", "NREG == 1"), ("NCALLS", "NCALLS + 1")]},
+         modifies=["*"],
+         ensures=[("the-test-runs-once-with-the-captured-logger-installed-and-the-cleanup-already-registered",
+                   "NCALLS == 1 and DURING == old(dget(kwargs, 'logger')) and REGBEFORE and NREG == 1", ["C14"]),
+                  ("the-closure-restores-what-was-the-default-at-entry", "box(PREVIOUS) == old(" + DEFLOG + ")", ["C14"])],
+         raises=[{"cls": "BaseException", "ensures": [
+                  ("also-when-the-test-raises: it ran with the captured logger installed and the cleanup registered",
+                   "NCALLS == 1 and DURING == old(dget(kwargs, 'logger')) and REGBEFORE and NREG == 1 and box(PREVIOUS) == old(" + DEFLOG + ")", ["C14"])]}])
